@@ -1,7 +1,7 @@
 SPECIFICATION Spec
 CONSTANTS
-  N = 6
-  Profile = "core"
+  N = 1
+  Profile = "closure"
   Sems = {"E"}
   OpenVars = 0
   MaxSteps = 300
